@@ -802,3 +802,120 @@ Section SplitInvariance.
       reflexivity.
   Qed.
 End SplitInvariance.
+
+(** ** the moist classes: executed = assembled *)
+Section ConcreteMoist.
+  Context {F : Type} {o : Ops F} {Fc : FieldC o}.
+  Add Field FFpm : (field_c : FieldTh o).
+  Variable g : @HGrid F.
+  Variable c : @PEcfg F.
+  Variable m : @Moist F.
+  Variable grav : F.
+  Variable orog : nat -> nat -> F.
+  Variable X : Wi -> @NCol F.
+  Variable rt q gqx gqy : Wi -> nat -> F.
+  Variable lapn : Wi -> F.
+
+  Theorem vort_of_h_is_assembly r a l :
+    (a < hR g)%nat -> (l < hL g)%nat ->
+    vort_of_h g (tm g (fun i j => combined_u c true (X (i, j)) (rt (i, j)) r))
+                (tm g (fun i j => combined_v c true (X (i, j)) (rt (i, j)) r))
+                (tm g (fun i j => humidity_curl_nodal c m (X (i, j)) (gqx (i, j)) (gqy (i, j)) r)) a l
+    = vort_tendency_explicit Wi Wi (toM_c g) (curlc_c g) (clip_c g) c X rt
+                             (fun w' => humidity_curl_modal Wi Wi (toM_c g) c m X gqx gqy r w') r (a, l).
+  Proof.
+    intros Ha Hl. unfold vort_tendency_explicit, humidity_curl_modal, vort_of_h, clip_c, curlc_c, toM_c, unc, cur, clipm, Deriv.clip.
+    cbn [fst snd].
+    rewrite (tm_ok g _ a l Ha Hl).
+    rewrite (curlm_ext_range g _ _ (to_modal g (fun i j => combined_u c true (X (i, j)) (rt (i, j)) r))
+               (to_modal g (fun i j => combined_v c true (X (i, j)) (rt (i, j)) r)) a l Ha Hl)
+      by (intros; now apply tm_ok).
+    reflexivity.
+  Qed.
+
+  Theorem div_of_h_is_assembly r a l :
+    (a < hR g)%nat -> (l < hL g)%nat ->
+    div_of_h g grav orog
+             (tm g (fun i j => combined_u c true (X (i, j)) (rt (i, j)) r))
+             (tm g (fun i j => combined_v c true (X (i, j)) (rt (i, j)) r))
+             (tm g (fun i j => kinetic (X (i, j)) r))
+             (hum_div_of g (tm g (fun i j => humidity_geo_nodal c false m (X (i, j)) (q (i, j)) r))
+                           (tm g (fun i j => humidity_div_nodal c m (X (i, j)) (q (i, j)) (gqx (i, j)) (gqy (i, j)) (lapn (i, j)) r))) a l
+    = div_tendency_explicit Wi Wi (toM_c g) (divc_c g) (lap_c g) (clip_c g) c grav X rt (unc orog)
+                            (fun w' => humidity_div_modal Wi Wi (toM_c g) (lap_c g) c m X q gqx gqy lapn r w') r (a, l).
+  Proof.
+    intros Ha Hl.
+    unfold div_tendency_explicit, humidity_div_modal, div_of_h, hum_div_of, clip_c, divc_c, lap_c, toM_c, unc, cur, clipm, lapm,
+      Deriv.clip, Deriv.laplacian.
+    cbn [fst snd].
+    rewrite !(tm_ok g _ a l Ha Hl).
+    rewrite (divm_ext_range g _ _ (to_modal g (fun i j => combined_u c true (X (i, j)) (rt (i, j)) r))
+               (to_modal g (fun i j => combined_v c true (X (i, j)) (rt (i, j)) r)) a l Ha Hl)
+      by (intros; now apply tm_ok).
+    reflexivity.
+  Qed.
+
+  Theorem temp_of_moist_is_assembly r a l :
+    (a < hR g)%nat -> (l < hL g)%nat ->
+    scalar_of g (tm g (fun i j => temp_nodal_total_moist c true m (X (i, j)) (q (i, j)) r))
+                (tm g (fun i j => hsa_mu (X (i, j)) (n_temp (X (i, j))) r))
+                (tm g (fun i j => hsa_mv (X (i, j)) (n_temp (X (i, j))) r)) a l
+    = temp_tendency_explicit_moist Wi Wi (toM_c g) (divc_c g) (clip_c g) c m X q r (a, l).
+  Proof.
+    intros Ha Hl. unfold temp_tendency_explicit_moist, scalar_of, clip_c, divc_c, toM_c, unc, cur, clipm, Deriv.clip. cbn [fst snd].
+    rewrite (tm_ok g _ a l Ha Hl).
+    rewrite (divm_ext_range g _ _ (to_modal g (fun i j => hsa_mu (X (i, j)) (n_temp (X (i, j))) r))
+               (to_modal g (fun i j => hsa_mv (X (i, j)) (n_temp (X (i, j))) r)) a l Ha Hl)
+      by (intros; now apply tm_ok).
+    reflexivity.
+  Qed.
+End ConcreteMoist.
+
+Section ConcreteMoistWhole.
+  Context {F : Type} {o : Ops F} {Fc : FieldC o}.
+  Variable g : @HGrid F.
+  Variable c : @PEcfg F.
+  Variable m : @Moist F.
+  Variable grav : F.
+  Variable orog : nat -> nat -> F.
+
+  (** every coefficient of vorticity, divergence, temperature, lnps of explicit_terms_full_moist is the ModalAssembly
+      instance (virtual temperature [rt_full], humidity corrections, moist adiabatic term) at the nodal columns,
+      nodal humidity, nodal grad(q) and nodal laplacian(lnps) of the materialised diagnostic arrays *)
+  Theorem explicit_terms_full_moist_is_assembly (cloud : bool) (s : @State F) k a l :
+    (k < cK c)%nat -> (a < hR g)%nat -> (l < hL g)%nat ->
+    let d := diagnostic_state g (cK c) s in
+    let md := moist_diag g (cK c) s in
+    let X := X_of g d in
+    let rt := rt_full g cloud c m d in
+    let q := trn d 0 in
+    let gqx := gq_of (m_gqx md) in let gqy := gq_of (m_gqy md) in
+    let lapn := fun p : Wi => m_lap md (fst p) (snd p) in
+    let E := explicit_terms_full_moist g cloud c m grav orog s in
+    s_vort E k a l
+    = vort_tendency_explicit Wi Wi (toM_c g) (curlc_c g) (clip_c g) c X rt
+                             (fun w' => humidity_curl_modal Wi Wi (toM_c g) c m X gqx gqy k w') k (a, l) /\
+    s_div E k a l
+    = div_tendency_explicit Wi Wi (toM_c g) (divc_c g) (lap_c g) (clip_c g) c grav X rt (unc orog)
+                            (fun w' => humidity_div_modal Wi Wi (toM_c g) (lap_c g) c m X q gqx gqy lapn k w') k (a, l) /\
+    s_temp E k a l = temp_tendency_explicit_moist Wi Wi (toM_c g) (divc_c g) (clip_c g) c m X q k (a, l) /\
+    s_lnps E a l = lnps_tendency_explicit_c g c X (a, l).
+  Proof.
+    intros Hk Ha Hl. cbv zeta. unfold explicit_terms_full_moist, explicit_terms_of_diag_moist. cbv zeta.
+    cbn [s_vort s_div s_temp s_lnps].
+    rewrite !(nth_map_seq (explicit_level_moist g cloud c m grav orog (diagnostic_state g (cK c) s) (moist_diag g (cK c) s))
+                (cK c) k (lev0 (F := F)) Hk).
+    unfold explicit_level_moist. cbv zeta. cbn [l_vort l_div l_temp].
+    rewrite !sh_memo2_ok by assumption.
+    split; [|split; [|split]].
+    - exact (vort_of_h_is_assembly g c m (X_of g (diagnostic_state g (cK c) s))
+               (rt_full g cloud c m (diagnostic_state g (cK c) s))
+               (gq_of (m_gqx (moist_diag g (cK c) s))) (gq_of (m_gqy (moist_diag g (cK c) s))) k a l Ha Hl).
+    - exact (div_of_h_is_assembly g c m grav orog (X_of g (diagnostic_state g (cK c) s))
+               (rt_full g cloud c m (diagnostic_state g (cK c) s)) (trn (diagnostic_state g (cK c) s) 0)
+               (gq_of (m_gqx (moist_diag g (cK c) s))) (gq_of (m_gqy (moist_diag g (cK c) s)))
+               (fun p : Wi => m_lap (moist_diag g (cK c) s) (fst p) (snd p)) k a l Ha Hl).
+    - exact (temp_of_moist_is_assembly g c m (X_of g (diagnostic_state g (cK c) s)) (trn (diagnostic_state g (cK c) s) 0) k a l Ha Hl).
+    - apply lnps_explicit_is_assembly; assumption.
+  Qed.
+End ConcreteMoistWhole.
